@@ -218,6 +218,34 @@ pub fn start_watchdog() {
     });
 }
 
+fn dump_current(reason: &str) -> bool {
+    let Ok(cur) = WATCH.current.try_lock() else { return false };
+    let Some((_, case)) = cur.as_ref() else { return false };
+    let hdr = WATCH.header.try_lock().ok().and_then(|h| h.clone());
+    let path = WATCH.dump_path.try_lock().ok().and_then(|p| p.clone());
+    if let Some(path) = path {
+        let (p, s) = hdr.unwrap_or_default();
+        let v: Value = serde_json::from_str(case).unwrap_or(Value::Null);
+        let doc = json!({"property": p, "subcheck": s, "case": v, "failure": format!("non-termination/resource: {}", reason)});
+        let _ = std::fs::write(&path, serde_json::to_string_pretty(&doc).unwrap());
+    }
+    true
+}
+
+extern "C" fn on_fatal_signal(_sig: libc::c_int) {
+    // abort() after an allocation failure or a stack overflow: best effort dump of the published case
+    dump_current("process aborted (allocation failure, stack overflow or abort)");
+    unsafe { libc::_exit(EXIT_WATCHDOG) }
+}
+
+/// Convert aborts of the code under test (allocation failure under RLIMIT_AS, stack overflow)
+/// into a watchdog exit with the current case dumped.
+pub fn install_abort_handler() {
+    unsafe {
+        libc::signal(libc::SIGABRT, on_fatal_signal as usize);
+    }
+}
+
 fn watch_begin(json: String) {
     *WATCH.current.lock().unwrap() = Some((Instant::now(), json));
 }
